@@ -157,6 +157,29 @@ impl<'a> Run<'a> {
             }
             self.stats.oracle_evals += 2;
         }
+        // asking the same authorizer again, or a clone taken after the first answer, gives the
+        // same answer (an expression error is compared as such: which error is the known race)
+        libeval::install(hk);
+        if let Ok(mut a) = libeval::build_authorizer(Some(biscuit), &spec.authorizer, spec.limits) {
+            let norm = |o: Outcome| match o {
+                Outcome::ExprError(_) => "ExprError".to_string(),
+                o => format!("{o:?}"),
+            };
+            let first = norm(libeval::outcome_of(a.authorize()));
+            let mut c = a.clone();
+            let second = norm(libeval::outcome_of(a.authorize()));
+            let cloned = norm(libeval::outcome_of(c.authorize()));
+            self.stats.oracle_evals += 1;
+            if first != second || first != cloned {
+                self.violate(
+                    "C11",
+                    "nondeterministic-outcome",
+                    format!(
+                        "slot {token} verifier {verifier}: cause=second-call-differs; authorize() answers {first}, asked again the same authorizer answers {second}, a clone taken after the first answer {cloned}"
+                    ),
+                );
+            }
+        }
         self.stats.trace.push(format!("c11:{}", seen.len()));
         if seen.len() > 1 {
             // structural cause, computed by the reference evaluator
@@ -170,7 +193,13 @@ impl<'a> Run<'a> {
                     qerr = true;
                 }
             }
-            let cause = if matches!(d, refdl::Decision::Error(_)) || w.error.is_some() || qerr {
+            // an expression of a rule that fails for some binding makes the evaluation fail under
+            // every order (every binding of a rule is evaluated): a plain decision next to it
+            // is not the first-match race of checks and policies
+            let decided_somewhere = seen.iter().any(|s| s.starts_with("D("));
+            let cause = if w.rule_error.is_some() && decided_somewhere {
+                "cause=rule-error-lost-under-some-orders"
+            } else if matches!(d, refdl::Decision::Error(_)) || w.error.is_some() || qerr {
                 "cause=binding-order-race"
             } else {
                 "cause=unknown"
